@@ -24,7 +24,7 @@ TRUSTED = ['model of pdf_obj.rs in coq/Model/Obj.v on top of coq/Model/Prim.v (h
 ASSUMPTIONS = ['nesting of a text = nesting of its bracket structure, a primitive counting 1 (a dropped `key null` pair still nests)',
                '"stack proportional to d" is witnessed by the recursion structure (C16_stack_bounded) and by the 10^6-deep '
                'inputs being rejected inside a 64 MiB stack']
-CASE_TIMEOUT = 600
+CASE_TIMEOUT = 1500
 
 
 def profile_word(rng, n, leaf=True):
@@ -128,6 +128,14 @@ def shown_depth(txt):
         elif ch == ')':
             lvl -= 1
     return mx
+
+
+def comparable(case, mobs=None):
+    """The 10^5..10^6-deep inputs are about the IMPLEMENTATION surviving (oracle below); the extracted model is
+    super-linear in the buffer size (Model/Prim.v recomputes the length), so on a loaded machine it may exceed the
+    shard time limit on them: a model 'timeout' on a deep case is not a disagreement (added by the coordinator after
+    a thorough run under load reported exactly that as no-failing-input-found)."""
+    return not (case.startswith('deep ') and mobs in ('timeout', 'notrun'))
 
 
 def oracle(case, obs, prof):
